@@ -1,0 +1,224 @@
+//go:build verif
+
+package sftp
+
+// Re-exports for the verification harness in /verif (property C06): the filexfer Buffer type's own
+// API, one thin method per exported method of sshfx.Buffer, plus the MarshalInto / UnmarshalFrom /
+// UnmarshalPacketBody entry points of the codec that take a *Buffer, so that ONE Buffer can be driven
+// through arbitrary sequences of operations. Compiled only with `-tags verif`; wrappers only, no
+// behaviour, no edits to existing code.
+
+import (
+	"fmt"
+
+	sshfx "github.com/pkg/sftp/internal/encoding/ssh/filexfer"
+	"github.com/pkg/sftp/internal/encoding/ssh/filexfer/openssh"
+)
+
+// VerifFxBuf holds one sshfx.Buffer.
+type VerifFxBuf struct{ b *sshfx.Buffer }
+
+// VerifFxBufZero is new(Buffer).
+func VerifFxBufZero() *VerifFxBuf { return &VerifFxBuf{b: new(sshfx.Buffer)} }
+
+// VerifFxBufNew is NewBuffer(buf) with buf = a copy of data with extraCap bytes of spare capacity.
+func VerifFxBufNew(data []byte, extraCap int) *VerifFxBuf {
+	if extraCap < 0 {
+		extraCap = 0
+	}
+	buf := make([]byte, len(data), len(data)+extraCap)
+	copy(buf, data)
+	return &VerifFxBuf{b: sshfx.NewBuffer(buf)}
+}
+
+// VerifFxBufMarshal is NewMarshalBuffer(size).
+func VerifFxBufMarshal(size int) *VerifFxBuf { return &VerifFxBuf{b: sshfx.NewMarshalBuffer(size)} }
+
+// observers (Bytes returns a copy)
+func (h *VerifFxBuf) Bytes() []byte { return verifClone(h.b.Bytes()) }
+func (h *VerifFxBuf) Len() int      { return h.b.Len() }
+func (h *VerifFxBuf) Cap() int      { return h.b.Cap() }
+func (h *VerifFxBuf) Err() error    { return h.b.Err }
+func (h *VerifFxBuf) ErrIsShort() bool {
+	return h.b.Err == sshfx.ErrShortPacket
+}
+
+func (h *VerifFxBuf) Reset()                           { h.b.Reset() }
+func (h *VerifFxBuf) StartPacket(typ uint8, id uint32) { h.b.StartPacket(sshfx.PacketType(typ), id) }
+func (h *VerifFxBuf) PutLength(size int)               { h.b.PutLength(size) }
+
+// Packet returns copies of the two parts.
+func (h *VerifFxBuf) Packet(payload []byte) (header, payloadPassThru []byte, err error) {
+	hd, pl, err := h.b.Packet(payload)
+	return verifClone(hd), verifClone(pl), err
+}
+func (h *VerifFxBuf) MarshalBinary() ([]byte, error)    { return h.b.MarshalBinary() }
+func (h *VerifFxBuf) UnmarshalBinary(data []byte) error { return h.b.UnmarshalBinary(data) }
+
+func (h *VerifFxBuf) ConsumeUint8() uint8   { return h.b.ConsumeUint8() }
+func (h *VerifFxBuf) ConsumeBool() bool     { return h.b.ConsumeBool() }
+func (h *VerifFxBuf) ConsumeUint16() uint16 { return h.b.ConsumeUint16() }
+func (h *VerifFxBuf) ConsumeUint32() uint32 { return h.b.ConsumeUint32() }
+func (h *VerifFxBuf) ConsumeCount() int     { return h.b.ConsumeCount() }
+func (h *VerifFxBuf) ConsumeUint64() uint64 { return h.b.ConsumeUint64() }
+func (h *VerifFxBuf) ConsumeInt64() int64   { return h.b.ConsumeInt64() }
+func (h *VerifFxBuf) ConsumeString() string { return h.b.ConsumeString() }
+
+// ConsumeByteSlice returns a copy of the result and whether the result was nil.
+func (h *VerifFxBuf) ConsumeByteSlice() ([]byte, bool) {
+	v := h.b.ConsumeByteSlice()
+	return verifClone(v), v == nil
+}
+
+// ConsumeByteSliceCopy runs ConsumeByteSliceCopy(hint) with hint = make([]byte, l, c) filled with fill (nil when c < 0).
+func (h *VerifFxBuf) ConsumeByteSliceCopy(l, c int, fill byte) []byte {
+	var hint []byte
+	if c >= 0 {
+		hint = verifHint(l, c, fill)
+	}
+	return h.b.ConsumeByteSliceCopy(hint)
+}
+
+func (h *VerifFxBuf) AppendUint8(v uint8)      { h.b.AppendUint8(v) }
+func (h *VerifFxBuf) AppendBool(v bool)        { h.b.AppendBool(v) }
+func (h *VerifFxBuf) AppendUint16(v uint16)    { h.b.AppendUint16(v) }
+func (h *VerifFxBuf) AppendUint32(v uint32)    { h.b.AppendUint32(v) }
+func (h *VerifFxBuf) AppendCount(v int)        { h.b.AppendCount(v) }
+func (h *VerifFxBuf) AppendUint64(v uint64)    { h.b.AppendUint64(v) }
+func (h *VerifFxBuf) AppendInt64(v int64)      { h.b.AppendInt64(v) }
+func (h *VerifFxBuf) AppendByteSlice(v []byte) { h.b.AppendByteSlice(v) }
+func (h *VerifFxBuf) AppendString(v string)    { h.b.AppendString(v) }
+
+// AppendRaw appends the bytes one by one with AppendUint8 (the Buffer has no raw append).
+func (h *VerifFxBuf) AppendRaw(v []byte) {
+	for _, x := range v {
+		h.b.AppendUint8(x)
+	}
+}
+
+// ---- the codec's MarshalInto / UnmarshalFrom entry points on this Buffer ----
+
+func (h *VerifFxBuf) MarshalAttrsInto(flags uint32, st FileStat) {
+	a := verifToFxAttrs(flags, &st)
+	a.MarshalInto(h.b)
+}
+func (h *VerifFxBuf) UnmarshalAttrsFrom() (uint32, FileStat, error) {
+	var a sshfx.Attributes
+	err := a.UnmarshalFrom(h.b)
+	f, st := verifFromFxAttrs(&a)
+	return f, st, err
+}
+func (h *VerifFxBuf) MarshalNameInto(n VerifName) {
+	e := sshfx.NameEntry{Filename: n.Name, Longname: n.LongName, Attrs: verifToFxAttrs(n.Flags, &n.Stat)}
+	e.MarshalInto(h.b)
+}
+func (h *VerifFxBuf) UnmarshalNameFrom() (VerifName, error) {
+	var e sshfx.NameEntry
+	err := e.UnmarshalFrom(h.b)
+	f, st := verifFromFxAttrs(&e.Attrs)
+	return VerifName{Name: e.Filename, LongName: e.Longname, Flags: f, Stat: st}, err
+}
+
+// MarshalPairInto: ExtensionPair (attr = false) or ExtendedAttribute (attr = true).
+func (h *VerifFxBuf) MarshalPairInto(attr bool, name, data string) {
+	if attr {
+		(&sshfx.ExtendedAttribute{Type: name, Data: data}).MarshalInto(h.b)
+		return
+	}
+	(&sshfx.ExtensionPair{Name: name, Data: data}).MarshalInto(h.b)
+}
+func (h *VerifFxBuf) UnmarshalPairFrom(attr bool) (name, data string, err error) {
+	if attr {
+		var e sshfx.ExtendedAttribute
+		err = e.UnmarshalFrom(h.b)
+		return e.Type, e.Data, err
+	}
+	var e sshfx.ExtensionPair
+	err = e.UnmarshalFrom(h.b)
+	return e.Name, e.Data, err
+}
+
+// MarshalExtDataInto runs MarshalInto of the OpenSSH extension data types (kinds ExtStatVFS, ExtPosixRename,
+// ExtHardlink, ExtFsync, VFS: the extension-specific data only, without the extension name).
+func (h *VerifFxBuf) MarshalExtDataInto(v VerifPkt) error {
+	switch v.Kind {
+	case "ExtStatVFS":
+		(&openssh.StatVFSExtendedPacket{Path: v.Path}).MarshalInto(h.b)
+	case "ExtPosixRename":
+		(&openssh.POSIXRenameExtendedPacket{OldPath: v.Path, NewPath: v.Path2}).MarshalInto(h.b)
+	case "ExtHardlink":
+		(&openssh.HardlinkExtendedPacket{OldPath: v.Path, NewPath: v.Path2}).MarshalInto(h.b)
+	case "ExtFsync":
+		(&openssh.FSyncExtendedPacket{Handle: v.Handle}).MarshalInto(h.b)
+	case "VFS":
+		(&openssh.StatVFSExtendedReplyPacket{BlockSize: v.VFS[0], FragmentSize: v.VFS[1], Blocks: v.VFS[2], BlocksFree: v.VFS[3], BlocksAvail: v.VFS[4],
+			Files: v.VFS[5], FilesFree: v.VFS[6], FilesAvail: v.VFS[7], FilesystemID: v.VFS[8], MountFlags: v.VFS[9], MaxNameLength: v.VFS[10]}).MarshalInto(h.b)
+	default:
+		return fmt.Errorf("verif: no extension data type for kind %q", v.Kind)
+	}
+	return nil
+}
+
+// UnmarshalExtDataFrom runs UnmarshalFrom of the same types.
+func (h *VerifFxBuf) UnmarshalExtDataFrom(kind string) (VerifPkt, error) {
+	v := VerifPkt{Kind: kind}
+	var err error
+	switch kind {
+	case "ExtStatVFS":
+		var p openssh.StatVFSExtendedPacket
+		err = p.UnmarshalFrom(h.b)
+		v.Path = p.Path
+	case "ExtPosixRename":
+		var p openssh.POSIXRenameExtendedPacket
+		err = p.UnmarshalFrom(h.b)
+		v.Path, v.Path2 = p.OldPath, p.NewPath
+	case "ExtHardlink":
+		var p openssh.HardlinkExtendedPacket
+		err = p.UnmarshalFrom(h.b)
+		v.Path, v.Path2 = p.OldPath, p.NewPath
+	case "ExtFsync":
+		var p openssh.FSyncExtendedPacket
+		err = p.UnmarshalFrom(h.b)
+		v.Handle = p.Handle
+	case "VFS":
+		var p openssh.StatVFSExtendedReplyPacket
+		err = p.UnmarshalFrom(h.b)
+		v.VFS = [11]uint64{p.BlockSize, p.FragmentSize, p.Blocks, p.BlocksFree, p.BlocksAvail, p.Files, p.FilesFree, p.FilesAvail, p.FilesystemID, p.MountFlags, p.MaxNameLength}
+	default:
+		return v, fmt.Errorf("verif: no extension data type for kind %q", kind)
+	}
+	return v, err
+}
+
+// UnmarshalPacketBody runs UnmarshalPacketBody(buf) of a zero packet value of kind (the kinds of VerifFxHold that
+// implement sshfx.Packet) on this Buffer, as it is (the request id is NOT consumed here).
+func (h *VerifFxBuf) UnmarshalPacketBody(kind string) (VerifPkt, error) {
+	z, err := VerifFxHold(kind)
+	if err != nil {
+		return VerifPkt{}, err
+	}
+	if z.pkt == nil {
+		return VerifPkt{}, fmt.Errorf("verif: kind %q has no UnmarshalPacketBody", kind)
+	}
+	err = z.pkt.UnmarshalPacketBody(h.b)
+	var v VerifPkt
+	verifFromFxPacket(z.pkt, &v)
+	return v, err
+}
+
+// UnmarshalFrameFrom runs (*RequestPacket).UnmarshalFrom (raw = false) or (*RawPacket).UnmarshalFrom (raw = true)
+// on this Buffer (type byte first).
+func (h *VerifFxBuf) UnmarshalFrameFrom(raw bool) (VerifPkt, error) {
+	if raw {
+		var rw sshfx.RawPacket
+		err := rw.UnmarshalFrom(h.b)
+		return VerifPkt{Kind: "Raw", ID: rw.RequestID, Code: uint32(rw.PacketType), Data: verifClone(rw.Data.Bytes())}, err
+	}
+	var rp sshfx.RequestPacket
+	err := rp.UnmarshalFrom(h.b)
+	v := VerifPkt{ID: rp.RequestID}
+	if rp.Request != nil {
+		verifFromFxPacket(rp.Request, &v)
+	}
+	return v, err
+}
